@@ -190,6 +190,8 @@ class Decoder:
         self.acted = "ignored-dup"
         return
       ch = 2 if b1 & 0x08 else 1
+      if (b1 & 0x77) == 0x15 and 0x20 <= b2 <= 0x2F:
+        ch = 3          # the field-2 form of a miscellaneous control code: it addresses no channel of field 1
       if ch != 1:
         self.channel = ch
         if DEV_DUP_KEEPS_ACROSS_SKIPPED not in self.dev:
@@ -215,8 +217,6 @@ class Decoder:
   def _control(self, b1, b2):
     if b2 >= 0x40:
       return self._pac(b1, b2)
-    if b1 == 0x15 and 0x20 <= b2 <= 0x2F:        # field 2 variant of the miscellaneous codes
-      b1 = 0x14
     if b1 == 0x11 and 0x20 <= b2 <= 0x2F:
       return self._midrow(b2)
     if b1 == 0x11 and 0x30 <= b2 <= 0x3F:
